@@ -225,6 +225,21 @@ def _is_bool(x):
     return isinstance(x, bool) or type(x).__name__ in ("bool_", "bool")
 
 
+def _numpy_args(args):
+    """The same parameter tuple with numpy scalars, or None when an integer
+    does not fit an int64 comfortably (mixing int64 with larger Python ints
+    overflows inside numpy, which is not the library's business)."""
+    import numpy
+    if any(_is_int(x) and not _is_bool(x) and abs(x) >= 2 ** 61
+           for x in args):
+        return None
+    out = [numpy.bool_(x) if _is_bool(x) else
+           numpy.int64(x) if _is_int(x) else x for x in args]
+    if all(x is y for x, y in zip(out, args)):
+        return None
+    return out
+
+
 def _is_st(x):
     return type(x).__name__ == "StorageType"
 
@@ -295,6 +310,21 @@ def _perturb(a, lib):
             out.append((base(*a.args), False))
         except Exception:                               # noqa: BLE001
             pass
+    # the sibling kind with the same parameter tuple is another kind
+    twin = {"Copy": "Move", "Move": "Copy", "EndForward": "EndReverse",
+            "EndReverse": "EndForward"}.get(cls.__name__)
+    if twin is not None:
+        try:
+            out.append((getattr(lib, twin)(*a.args), False))
+        except Exception:                               # noqa: BLE001
+            pass
+    # the same parameters as numpy scalars are equal parameters
+    try:
+        nargs = _numpy_args(a.args)
+        if nargs is not None:
+            out.append((cls(*nargs), True))
+    except Exception:                                   # noqa: BLE001
+        pass
     ST = lib.StorageType
     for i, x in enumerate(a.args):
         if _is_bool(x):
@@ -421,6 +451,11 @@ class C18(E1):
                 done.add(kind)
                 self.own(w, kind, slot0, "directly constructed: " + text)
                 w.viol[-1]["cls"] = "*"
+        # some of them once more with numpy scalars as parameters
+        for a in list(pool[:5]):
+            nargs = _numpy_args(a.args)
+            if nargs is not None:
+                pool.append(type(a)(*nargs))
         for i, a in enumerate(pool):
             self._laws_single(a, ns, once2)
             for b in pool[i + 1:]:
